@@ -60,3 +60,105 @@ package openflow13
 //@   requires 0 <= first && first <= last && last <= 31
 //@   ensures w1 == w2 && m1 == m2
 //@   ensures o1 == uint16(first) && n1 == uint16(last - first + 1)
+
+// ---------------------------------------------------------------------------------------------
+// C18 connection-tracking state builder (nx_match.go). Bit positions are Open vSwitch's CS_* flags
+// (new 0, est 1, rel 2, rpl 3, inv 4, trk 5, snat 6, dnat 7), written as literals on purpose.
+
+//@ property C18 min-obligations 40
+
+//@ func NewCTStates() (r) [C18]
+//@   ensures r != nil && fresh(r) && r.data == 0 && r.mask == 0
+//@ func (*CTStates).SetNew(s) [C18]
+//@   modifies s.data, s.mask
+//@   ensures s.mask == old(s.mask) | 1
+//@   ensures s.data == old(s.data) | 1
+
+//@ func (*CTStates).UnsetNew(s) [C18]
+//@   modifies s.data, s.mask
+//@   ensures s.mask == old(s.mask) | 1
+//@   ensures s.data == old(s.data) &^ 1
+//@ func (*CTStates).SetEst(s) [C18]
+//@   modifies s.data, s.mask
+//@   ensures s.mask == old(s.mask) | 2
+//@   ensures s.data == old(s.data) | 2
+
+//@ func (*CTStates).UnsetEst(s) [C18]
+//@   modifies s.data, s.mask
+//@   ensures s.mask == old(s.mask) | 2
+//@   ensures s.data == old(s.data) &^ 2
+//@ func (*CTStates).SetRel(s) [C18]
+//@   modifies s.data, s.mask
+//@   ensures s.mask == old(s.mask) | 4
+//@   ensures s.data == old(s.data) | 4
+
+//@ func (*CTStates).UnsetRel(s) [C18]
+//@   modifies s.data, s.mask
+//@   ensures s.mask == old(s.mask) | 4
+//@   ensures s.data == old(s.data) &^ 4
+//@ func (*CTStates).SetRpl(s) [C18]
+//@   modifies s.data, s.mask
+//@   ensures s.mask == old(s.mask) | 8
+//@   ensures s.data == old(s.data) | 8
+
+//@ func (*CTStates).UnsetRpl(s) [C18]
+//@   modifies s.data, s.mask
+//@   ensures s.mask == old(s.mask) | 8
+//@   ensures s.data == old(s.data) &^ 8
+//@ func (*CTStates).SetInv(s) [C18]
+//@   modifies s.data, s.mask
+//@   ensures s.mask == old(s.mask) | 16
+//@   ensures s.data == old(s.data) | 16
+
+//@ func (*CTStates).UnsetInv(s) [C18]
+//@   modifies s.data, s.mask
+//@   ensures s.mask == old(s.mask) | 16
+//@   ensures s.data == old(s.data) &^ 16
+//@ func (*CTStates).SetTrk(s) [C18]
+//@   modifies s.data, s.mask
+//@   ensures s.mask == old(s.mask) | 32
+//@   ensures s.data == old(s.data) | 32
+
+//@ func (*CTStates).UnsetTrk(s) [C18]
+//@   modifies s.data, s.mask
+//@   ensures s.mask == old(s.mask) | 32
+//@   ensures s.data == old(s.data) &^ 32
+//@ func (*CTStates).SetSNAT(s) [C18]
+//@   modifies s.data, s.mask
+//@   ensures s.mask == old(s.mask) | 64
+//@   ensures s.data == old(s.data) | 64
+
+//@ func (*CTStates).UnsetSNAT(s) [C18]
+//@   modifies s.data, s.mask
+//@   ensures s.mask == old(s.mask) | 64
+//@   ensures s.data == old(s.data) &^ 64
+//@ func (*CTStates).SetDNAT(s) [C18]
+//@   modifies s.data, s.mask
+//@   ensures s.mask == old(s.mask) | 128
+//@   ensures s.data == old(s.data) | 128
+
+//@ func (*CTStates).UnsetDNAT(s) [C18]
+//@   modifies s.data, s.mask
+//@   ensures s.mask == old(s.mask) | 128
+//@   ensures s.data == old(s.data) &^ 128
+// Induction over all call histories: ghost words touched/last record which flags were touched and the
+// polarity of the last call per flag. Inv: mask == touched, data == last, last has no bit outside touched,
+// no bit above 7. NewCTStates establishes Inv with touched == last == 0; every one of the 16 operations
+// preserves it while updating only its own flag's ghost bits.
+//@ func lemmaCTStatesStep(s, touched, last, op) (t2, l2) [C18]
+//@   requires op >= 0 && op < 16
+//@   requires s.mask == touched && s.data == last && last &^ touched == 0 && touched < 256
+//@   modifies s.data, s.mask
+//@   ensures s.mask == t2 && s.data == l2 && l2 &^ t2 == 0 && t2 < 256
+//@   ensures t2 == touched | (1 << uint32(op/2))
+//@   ensures (op%2 == 0) ==> l2 == last | (1 << uint32(op/2))
+//@   ensures (op%2 == 1) ==> l2 == last &^ (1 << uint32(op/2))
+
+//@ func lemmaCTStatesInit() (r) [C18]
+//@   ensures r.mask == 0 && r.data == 0
+
+//@ func NewCTStateMatchField(states) (r) [C18]
+//@   requires states != nil
+//@   ensures r != nil && fresh(r) && r.Class == 1 && r.Field == 105 && r.HasMask && r.Length == 8
+//@   ensures typeis(r.Value, *Uint32Message) && typeis(r.Mask, *Uint32Message)
+//@   ensures r.Value.(*Uint32Message).Data == states.data && r.Mask.(*Uint32Message).Data == states.mask
